@@ -254,6 +254,13 @@ func (x *Exec) calleeModSet(fr *Frame, c *ssa.CallCommon) ModSet {
 		if ic := x.vc.uni.ifaceContract(c); ic != nil && ic.Pure {
 			return newModSet()
 		}
+		if c.Method.FullName() == "(io.Writer).Write" {
+			ms := newModSet()
+			ms.prefixes["Io.out"] = true
+			ms.prefixes["Io.outlen"] = true
+			ms.allocs = true
+			return ms
+		}
 	}
 	// closure value known?
 	if v, ok := fr.env[c.Value]; ok && v.K == KFunc && v.Fn != nil {
@@ -287,6 +294,9 @@ func (x *Exec) call(fr *Frame, st *State, c *ssa.CallCommon, pos token.Pos, site
 		}
 		recv := x.get(fr, st, c.Value)
 		x.check(fr, st, "nil", Not(Eq(recv.X, nilRef)), pos, "method call on nil interface")
+		if c.Method.FullName() == "(io.Writer).Write" && len(args) == 1 {
+			return x.ioWrite(fr, st, recv, args[0], pos)
+		}
 		if recv.Dyn != nil {
 			// statically known dynamic type
 			if fn := fr.fn.Prog.LookupMethod(recv.Dyn.T, c.Method.Pkg(), c.Method.Name()); fn != nil {
